@@ -141,6 +141,16 @@ PhysT(S, h) ==
                 S1    == WriteCells(S, ncell, ValuesOf(S, t.cells))
             IN SetLive(S1, h, [t EXCEPT !.cells = ncell, !.pend = NoPend])
 
+Contiguous(cs) == LET R == Range(cs) IN SetMax(R) - SetMin(R) + 1 = Cardinality(R)
+(* a physical move of data happens (used to name the circumstances of listed findings) *)
+PhysMoves(S, h) == LET t == S.live[h] IN t.pend # NoPend /\ t.shape # <<>>
+PhysTags(S, h) ==
+    IF ~PhysMoves(S, h) THEN {}
+    ELSE (IF S.live[h].ord = "F" THEN {"phys-colmajor"} ELSE {})
+         \cup (IF S.live[h].view /\ ~Contiguous(S.live[h].cells) THEN {"phys-view-noncontig"} ELSE {})
+         \cup (IF S.live[h].view THEN {"phys-view"} ELSE {})
+Tagged(o, tags) == IF tags = {} THEN o ELSE Out(o.S, [o.res EXCEPT !.x = [tags |-> tags]])
+
 UTT(S, h) ==
     LET t == S.live[h]
     IN IF t.pend = NoPend THEN S
@@ -170,9 +180,10 @@ TT(S, h, p0) ==
         p == EffPerm(t, p0)
     IN IF ~IsPerm(p, Len(t.shape)) THEN Free(S)
        ELSE IF ScalarEquiv(t.shape) \/ IsIdent(p) THEN OkH(S, 0)   \* no-op (a no-op error is swallowed)
-       ELSE OkH(LazyT(S, h, p), 0)
+       ELSE Tagged(OkH(LazyT(S, h, p), 0),
+                   IF t.pend # NoPend /\ ~IsIdent(Compose(t.pend[1].perm, p)) THEN PhysTags(S, h) ELSE {})
 
-TransposeT(S, h) == OkH(PhysT(S, h), 0)
+TransposeT(S, h) == Tagged(OkH(PhysT(S, h), 0), PhysTags(S, h))
 
 (* a fresh tensor holding copies of the elements of t (same logical arrangement) *)
 FreshCopy(S, t) ==
@@ -201,7 +212,7 @@ RollAxisT(S, h, axis, start, safe) ==
             IN IF axis = st THEN OkH(S, h)
                ELSE LET p == RollPerm(r, axis, start)
                     IN IF safe THEN SafeTT(S, h, p)
-                       ELSE LET o == TT(S, h, p) IN Out(o.S, Res("ok", FALSE, h, <<>>, <<>>))
+                       ELSE LET o == TT(S, h, p) IN Out(o.S, Res("ok", FALSE, h, <<>>, o.res.x))
 
 (***************************************************************************)
 (* Copies                                                                  *)
@@ -258,8 +269,8 @@ ReshapeT(S, h, nsh) ==
        ELSE LET S1 == PhysT(S, h)
                 t1 == S1.live[h]
                 fl == FlatOrder(t1.shape, t1.cells, t1.ord)
-            IN Out(SetLive(S1, h, [t1 EXCEPT !.shape = nsh, !.cells = FromFlat(nsh, fl, t1.ord)]),
-                   Res("ok", t.view, 0, <<>>, <<>>))
+            IN Tagged(Out(SetLive(S1, h, [t1 EXCEPT !.shape = nsh, !.cells = FromFlat(nsh, fl, t1.ord)]),
+                          Res("ok", t.view, 0, <<>>, <<>>)), PhysTags(S, h))
 
 (***************************************************************************)
 (* The transition function.  op = [k, h, a] : kind, main handle, arguments *)
